@@ -49,10 +49,7 @@ impl<'a> SessionData<'a> {
                     debug!("Ignoring stale PUBACK for packet id {=u16}", ack.packet_id);
                     return Ok(false);
                 }
-                runtime.send_quota = runtime
-                    .send_quota
-                    .saturating_add(1)
-                    .min(runtime.max_send_quota);
+                runtime.sync_send_quota(self.outbound.inflight_publishes());
                 debug!(
                     "Processed PUBACK packet_id={=u16} send_quota={=u16}",
                     ack.packet_id, runtime.send_quota
@@ -62,10 +59,6 @@ impl<'a> SessionData<'a> {
             ReceivedPacket::PubRec(rec) => {
                 let queue_release = match self.outbound.ack_packet(rec.packet_id) {
                     true => {
-                        runtime.send_quota = runtime
-                            .send_quota
-                            .saturating_add(1)
-                            .min(runtime.max_send_quota);
                         debug!(
                             "Processed PUBREC packet_id={=u16} send_quota={=u16}",
                             rec.packet_id, runtime.send_quota
@@ -84,6 +77,11 @@ impl<'a> SessionData<'a> {
                         return Ok(false);
                     }
                 };
+                if queue_release && rec.reason.code().failed() {
+                    // A failing PUBREC ends the exchange; a successful one keeps it counted
+                    // against the broker's Receive Maximum until PUBCOMP.
+                    runtime.sync_send_quota(self.outbound.inflight_publishes());
+                }
                 rec.reason.code().as_result()?;
                 if queue_release {
                     check_pubrel_size(
@@ -104,6 +102,7 @@ impl<'a> SessionData<'a> {
                     );
                     return Ok(false);
                 }
+                runtime.sync_send_quota(self.outbound.inflight_publishes());
                 debug!("Processed PUBCOMP packet_id={=u16}", comp.packet_id);
                 comp.reason.code().as_result()?;
             }
